@@ -143,37 +143,6 @@ def _block_after(src, i):
     return None, len(src)
 
 
-def full_string_appended_in_oos_try_body(f):
-    """
-    The recorded C04 finding is the spin through the overflow redirect of an append that sits in the
-    *body* of a try whose catch handles outofspace: the string that is full when the call stops
-    making progress must be appended to inside such a try body.
-    """
-    m = re.search(r"full=([\w,]+)", f.get("detail", ""))
-    if not m:
-        return False
-    names = [n for n in m.group(1).split(",") if n and n != "-"]
-    src = f.get("ctx", {}).get("source", "")
-    for t in re.finditer(r"\btry\b", src):
-        body, end = _block_after(src, t.end())
-        if body is None:
-            continue
-        c = re.match(r"\s*catch\s*(\(([^)]*)\))?", src[end:])
-        if not c:
-            continue
-        if c.group(2) is not None and "outofspace" not in c.group(2):
-            continue
-        handler, _ = _block_after(src, end + c.end())
-        for n in names:
-            if not re.search(r"\b%s\s*\+=" % re.escape(n), body):
-                continue
-            # a handler that empties the full string makes room: on the recorded tree that never spins
-            if handler is not None and re.search(r"\bdelete\s+%s\b" % re.escape(n), handler):
-                continue
-            return True
-    return False
-
-
 def yield_in_end_clause_inside_loop(f):
     """
     The recorded C04 end()-livelock: an `end -> { ... yield ... }` clause (the yield at the clause's top level or inside
@@ -193,8 +162,7 @@ def yield_in_end_clause_inside_loop(f):
     return False
 
 
-PREDICATES = {"full-string-appended-in-oos-try-body": full_string_appended_in_oos_try_body,
-              "yield-in-end-clause-inside-loop": yield_in_end_clause_inside_loop}
+PREDICATES = {"yield-in-end-clause-inside-loop": yield_in_end_clause_inside_loop}
 
 
 def known_match(entry, prop, f):
